@@ -31,15 +31,17 @@ theorem upd_comm {α β : Type} [DecidableEq α] (f : α → β) {a a' : α} (b 
     simp [this]
   · simp [h1]
 
-/-- the invariant of the occupancy model -/
-structure Inv (sp : Space) (s : State) : Prop where
+/-- the invariant of the occupancy model, with a bound `B` on what a cell may hold beyond its capacity: a cell holds at
+    most capacity-many agents *or* at most `B c` (the program may lower `cell.capacity` under the occupancy: the occupants
+    stay).  `B = 0`: the plain capacity bound; `B c` = the occupancy at some earlier state: "no growth beyond the capacity" -/
+structure InvB (sp : Space) (B : Cid → Nat) (s : State) : Prop where
   /-- a listed agent reports the cell that lists it -/
   mem_cell : ∀ a c, a ∈ s.occ c → s.cellOf a = some c
   /-- an agent that reports a cell is listed there — except a FixedAgent that was removed from the model
       (`FixedAgent.remove` keeps `_mesa_cell`) -/
   cell_mem : ∀ a c, s.cellOf a = some c → a ∈ s.occ c ∨ (s.kinds[a]? = some .fixed ∧ a ∉ s.registry)
   nodup : ∀ c, (s.occ c).Nodup
-  cap : ∀ c k, sp.cap c = some k → (s.occ c).length ≤ k
+  cap : ∀ c k, sp.cap c = some k → (s.occ c).length ≤ k ∨ (s.occ c).length ≤ B c
   /-- the `empty` flag is the truth (non-grid cells have no flag before their first agent) -/
   flag : ∀ c, s.flag c = some (s.occ c).isEmpty ∨ (sp.isGrid = false ∧ s.flag c = none ∧ s.occ c = [])
   known : ∀ a c, s.cellOf a = some c → a < s.kinds.length
@@ -47,18 +49,30 @@ structure Inv (sp : Space) (s : State) : Prop where
   reg_nodup : s.registry.Nodup
   occ_cells : ∀ a c, a ∈ s.occ c → c ∈ sp.cells
 
-theorem inv_init (sp : Space) : Inv sp (init sp) := by
+/-- the invariant proper (every state reachable by agent operations, connection edits and capacity writes has it): the
+    bound is the occupancy itself, i.e. nothing is claimed about capacities -/
+abbrev Inv (sp : Space) (s : State) : Prop := InvB sp (fun c => (s.occ c).length) s
+
+theorem InvB.toInv {sp : Space} {B : Cid → Nat} {s : State} (h : InvB sp B s) : Inv sp s :=
+  ⟨h.mem_cell, h.cell_mem, h.nodup, fun _ _ _ => Or.inr (Nat.le_refl _), h.flag, h.known, h.reg_lt, h.reg_nodup, h.occ_cells⟩
+
+/-- any bound will do where only the bookkeeping fields are used -/
+theorem InvB.rebound {sp : Space} {B : Cid → Nat} {s : State} (h : InvB sp B s) (B' : Cid → Nat)
+    (hb : ∀ c k, sp.cap c = some k → (s.occ c).length ≤ k ∨ (s.occ c).length ≤ B' c) : InvB sp B' s :=
+  ⟨h.mem_cell, h.cell_mem, h.nodup, hb, h.flag, h.known, h.reg_lt, h.reg_nodup, h.occ_cells⟩
+
+theorem inv_init (sp : Space) {B : Cid → Nat} : InvB sp B (init sp) := by
   refine ⟨?_, ?_, ?_, ?_, ?_, ?_, ?_, ?_, ?_⟩ <;> simp [init]
 
 /-- a mobile agent that reports a cell is listed there -/
-theorem Inv.mobile_mem {sp : Space} {s : State} (h : Inv sp s) {a : Aid} {k : AKind} {o : Cid}
+theorem InvB.mobile_mem {sp : Space} {B : Cid → Nat} {s : State} (h : InvB sp B s) {a : Aid} {k : AKind} {o : Cid}
     (hk : s.kinds[a]? = some k) (hm : k ≠ .fixed) (ho : s.cellOf a = some o) : a ∈ s.occ o := by
   rcases h.cell_mem a o ho with h1 | ⟨h1, _⟩
   · exact h1
   · rw [hk] at h1; simp at h1; exact absurd h1 hm
 
 /-- an agent listed nowhere -/
-theorem Inv.not_mem_of_none {sp : Space} {s : State} (h : Inv sp s) {a : Aid} (hn : s.cellOf a = none)
+theorem InvB.not_mem_of_none {sp : Space} {B : Cid → Nat} {s : State} (h : InvB sp B s) {a : Aid} (hn : s.cellOf a = none)
     (c : Cid) : a ∉ s.occ c := by
   intro hm; rw [h.mem_cell a c hm] at hn; simp at hn
 
@@ -82,8 +96,8 @@ def detachFixed (s : State) (a : Aid) (c : Cid) : State :=
            flag := upd s.flag c (some ((s.occ c).erase a).isEmpty),
            registry := s.registry.erase a }
 
-theorem inv_unplace {sp : Space} {s : State} (h : Inv sp s) {a : Aid} {o : Cid}
-    (ho : s.cellOf a = some o) (hm : a ∈ s.occ o) : Inv sp (unplace s a o) := by
+theorem inv_unplace {sp : Space} {B : Cid → Nat} {s : State} (h : InvB sp B s) {a : Aid} {o : Cid}
+    (ho : s.cellOf a = some o) (hm : a ∈ s.occ o) : InvB sp B (unplace s a o) := by
   have hne : ∀ b x, b ∈ s.occ x → x ≠ o → b ≠ a := by
     intro b x hb hx hba
     subst hba
@@ -144,9 +158,9 @@ theorem inv_unplace {sp : Space} {s : State} (h : Inv sp s) {a : Aid} {o : Cid}
 theorem unplace_cellOf (s : State) (a : Aid) (o : Cid) : (unplace s a o).cellOf a = none := by
   simp [unplace, upd_same]
 
-theorem inv_place {sp : Space} {s : State} (h : Inv sp s) {a : Aid} {c : Cid}
+theorem inv_place {sp : Space} {B : Cid → Nat} {s : State} (h : InvB sp B s) {a : Aid} {c : Cid}
     (ha : a < s.kinds.length) (hn : s.cellOf a = none) (hc : c ∈ sp.cells)
-    (hf : fullFor sp s c = false) : Inv sp (place s a c) := by
+    (hroom : ∀ k, sp.cap c = some k → (s.occ c).length + 1 ≤ k ∨ (s.occ c).length + 1 ≤ B c) : InvB sp B (place s a c) := by
   have hnot := h.not_mem_of_none hn
   have hne : ∀ b x, b ∈ s.occ x → b ≠ a := by
     intro b x hb hba; subst hba; exact hnot x hb
@@ -189,9 +203,9 @@ theorem inv_place {sp : Space} {s : State} (h : Inv sp s) {a : Aid} {c : Cid}
     simp only [place]
     by_cases hx : x = c
     · subst hx; rw [upd_same]
-      simp only [fullFor, hk] at hf
-      simp at hf
-      simp; omega
+      have := hroom k hk
+      simp only [List.length_append, List.length_cons, List.length_nil]
+      omega
     · rw [upd_other _ _ _ hx]; exact h.cap x k hk
   · intro x
     simp only [place]
@@ -209,8 +223,8 @@ theorem inv_place {sp : Space} {s : State} (h : Inv sp s) {a : Aid} {c : Cid}
     · subst hx; exact hc
     · rw [upd_other _ _ _ hx] at hb; exact h.occ_cells b x hb
 
-theorem inv_deregister {sp : Space} {s : State} (h : Inv sp s) (a : Aid) :
-    Inv sp { s with registry := s.registry.erase a } := by
+theorem inv_deregister {sp : Space} {B : Cid → Nat} {s : State} (h : InvB sp B s) (a : Aid) :
+    InvB sp B { s with registry := s.registry.erase a } := by
   refine ⟨h.mem_cell, ?_, h.nodup, h.cap, h.flag, h.known, ?_, h.reg_nodup.erase _, h.occ_cells⟩
   · intro b x hb
     rcases h.cell_mem b x hb with h1 | ⟨h1, h2⟩
@@ -219,9 +233,9 @@ theorem inv_deregister {sp : Space} {s : State} (h : Inv sp s) (a : Aid) :
   · intro b hb
     exact h.reg_lt b (List.mem_of_mem_erase hb)
 
-theorem inv_detachFixed {sp : Space} {s : State} (h : Inv sp s) {a : Aid} {c : Cid}
+theorem inv_detachFixed {sp : Space} {B : Cid → Nat} {s : State} (h : InvB sp B s) {a : Aid} {c : Cid}
     (hk : s.kinds[a]? = some .fixed) (hc : s.cellOf a = some c) (hm : a ∈ s.occ c) :
-    Inv sp (detachFixed s a c) := by
+    InvB sp B (detachFixed s a c) := by
   refine ⟨?_, ?_, ?_, ?_, ?_, h.known, ?_, h.reg_nodup.erase _, ?_⟩
   · intro b x hb
     simp only [detachFixed] at hb ⊢
@@ -271,7 +285,7 @@ theorem inv_detachFixed {sp : Space} {s : State} (h : Inv sp s) {a : Aid} {c : C
 /-! ### the code's setters, on states satisfying the invariant -/
 
 /-- a rejected `add_agent` changes nothing (repair SC3: the capacity is checked before anything is written) -/
-theorem addAgent_full {sp : Space} {s : State} (_h : Inv sp s) {c : Cid} (a : Aid)
+theorem addAgent_full {sp : Space} {B : Cid → Nat} {s : State} (_h : InvB sp B s) {c : Cid} (a : Aid)
     (hf : fullFor sp s c = true) : addAgent sp s c a = (s, false) := by
   unfold addAgent
   simp only [hf, if_true]
@@ -288,19 +302,23 @@ theorem removeAgent_mem {s : State} {o : Cid} {a : Aid} (hm : a ∈ s.occ o) :
   unfold removeAgent
   simp [hm]
 
-/-- after leaving its cell there is room for the agent to come back -/
-theorem fullFor_unplace_same {sp : Space} {s : State} (h : Inv sp s) {a : Aid} {o : Cid} (hm : a ∈ s.occ o) :
-    fullFor sp (unplace s a o) o = false := by
-  unfold fullFor
-  split
-  · rfl
-  · rename_i k hk
-    have := h.cap o k hk
-    have hl := List.length_erase_of_mem hm
-    have hpos : 0 < (s.occ o).length := List.length_pos_of_mem hm
-    simp only [unplace, upd_same]
-    simp
-    omega
+/-- a cell that does not refuse has room for one more under its capacity -/
+theorem room_of_notFull {sp : Space} {s : State} {c : Cid} (B : Cid → Nat) (hf : fullFor sp s c = false) :
+    ∀ k, sp.cap c = some k → (s.occ c).length + 1 ≤ k ∨ (s.occ c).length + 1 ≤ B c := by
+  intro k hk
+  simp only [fullFor, hk] at hf
+  simp at hf
+  omega
+
+/-- after leaving its cell the agent can come back: the cell then holds what it held before -/
+theorem room_unplace_same {sp : Space} {B : Cid → Nat} {s : State} (h : InvB sp B s) {a : Aid} {o : Cid} (hm : a ∈ s.occ o) :
+    ∀ k, sp.cap o = some k → ((unplace s a o).occ o).length + 1 ≤ k ∨ ((unplace s a o).occ o).length + 1 ≤ B o := by
+  intro k hk
+  have := h.cap o k hk
+  have hl := List.length_erase_of_mem hm
+  have hpos : 0 < (s.occ o).length := List.length_pos_of_mem hm
+  simp only [unplace, upd_same]
+  omega
 
 theorem fullFor_unplace_other {sp : Space} {s : State} {a : Aid} {o c : Cid} (hc : c ≠ o) :
     fullFor sp (unplace s a o) c = fullFor sp s c := by
@@ -309,7 +327,7 @@ theorem fullFor_unplace_other {sp : Space} {s : State} {a : Aid} {o c : Cid} (hc
 
 /-- what the (S11-repaired) `HasCell.cell` setter does on a state satisfying the invariant, for an agent
     that is listed where it reports to be -/
-theorem setCellMobile_eq {sp : Space} {s : State} (h : Inv sp s) {a : Aid}
+theorem setCellMobile_eq {sp : Space} {B : Cid → Nat} {s : State} (h : InvB sp B s) {a : Aid}
     (hmob : ∀ o, s.cellOf a = some o → a ∈ s.occ o) (tgt : Option Cid) :
     setCellMobile sp s a tgt =
       match tgt, s.cellOf a with
@@ -341,14 +359,7 @@ theorem setCellMobile_eq {sp : Space} {s : State} (h : Inv sp s) {a : Aid}
       by_cases hco : c = o
       · subst hco
         have hm := hmob c ho
-        have hroom := fullFor_unplace_same h (a := a) hm
         simp only [setCellMobile, ho, ne_eq, not_true_eq_false, if_false, removeAgent_mem hm, if_true]
-        have hroom' : ∀ s' : State, s'.occ c = (unplace s a c).occ c → fullFor sp s' c = false := by
-          intro s' hs'
-          rw [← hroom]
-          unfold fullFor
-          rw [hs']
-        rw [addAgent_ok a (hroom' _ (by simp [unplace]))]
         simp [place, unplace, upd_upd]
       · have hne : (some c : Option Cid) ≠ some o := by simpa using hco
         have hm := hmob o ho
@@ -365,7 +376,7 @@ theorem setCellMobile_eq {sp : Space} {s : State} (h : Inv sp s) {a : Aid}
           rw [upd_comm s.occ _ _ hco, upd_comm s.flag _ _ hco]
 
 /-- what the (S12-repaired) `FixedCell.cell` setter does on a state satisfying the invariant -/
-theorem setCellFixed_eq {sp : Space} {s : State} (h : Inv sp s) (a : Aid) (tgt : Option Cid) :
+theorem setCellFixed_eq {sp : Space} {B : Cid → Nat} {s : State} (h : InvB sp B s) (a : Aid) (tgt : Option Cid) :
     setCellFixed sp s a tgt =
       match s.cellOf a, tgt with
       | some _, _ => (s, .err .fixed)
@@ -388,9 +399,9 @@ theorem lt_of_kind {s : State} {a : Aid} {k : AKind} (hk : s.kinds[a]? = some k)
   exact h
 
 /-- every outcome of `a.cell = …` keeps the invariant -/
-theorem setCell_inv {sp : Space} {s : State} (h : Inv sp s) {a : Aid} {k : AKind}
+theorem setCell_inv {sp : Space} {B : Cid → Nat} {s : State} (h : InvB sp B s) {a : Aid} {k : AKind}
     (hk : s.kinds[a]? = some k) (tgt : Option Cid) (htgt : ∀ c, tgt = some c → c ∈ sp.cells) :
-    Inv sp (setCell sp s k a tgt).1 := by
+    InvB sp B (setCell sp s k a tgt).1 := by
   have ha := lt_of_kind hk
   by_cases hfix : k = .fixed
   · subst hfix
@@ -406,7 +417,7 @@ theorem setCell_inv {sp : Space} {s : State} (h : Inv sp s) {a : Aid} {k : AKind
         split
         · exact h
         · rename_i hf
-          exact inv_place h ha ho (htgt c rfl) (by simpa using hf)
+          exact inv_place h ha ho (htgt c rfl) (room_of_notFull B (by simpa using hf))
   · have hset : setCell sp s k a tgt = setCellMobile sp s a tgt := by
       cases k <;> simp_all [setCell]
     rw [hset, setCellMobile_eq h (fun o ho => h.mobile_mem hk hfix ho)]
@@ -423,7 +434,7 @@ theorem setCell_inv {sp : Space} {s : State} (h : Inv sp s) {a : Aid} {k : AKind
         split
         · exact h
         · rename_i hf
-          exact inv_place h ha ho hc (by simpa using hf)
+          exact inv_place h ha ho hc (room_of_notFull B (by simpa using hf))
       | some o =>
         have hm := h.mobile_mem hk hfix ho
         have hu := inv_unplace h ho hm
@@ -431,12 +442,12 @@ theorem setCell_inv {sp : Space} {s : State} (h : Inv sp s) {a : Aid} {k : AKind
         split
         · rename_i hco
           subst hco
-          exact inv_place hu ha (unplace_cellOf s a c) hc (fullFor_unplace_same h hm)
+          exact inv_place hu ha (unplace_cellOf s a c) hc (room_unplace_same h hm)
         · rename_i hco
           split
           · exact h
           · rename_i hf
-            refine inv_place hu ha (unplace_cellOf s a o) hc ?_
+            refine inv_place hu ha (unplace_cellOf s a o) hc (room_of_notFull B ?_)
             rw [fullFor_unplace_other hco]
             simpa using hf
 
@@ -473,11 +484,11 @@ theorem walk_cells {sp : Space} (hsp : ConnClosed sp) {d : Key} (n : Nat) {c c' 
       exact ih (connGet_cells hsp hc hc1) h
 
 /-- the cell an agent reports is a cell of the space, if it is listed there -/
-theorem Inv.cell_in_space {sp : Space} {s : State} (h : Inv sp s) {a : Aid} {c : Cid} (hm : a ∈ s.occ c) :
+theorem InvB.cell_in_space {sp : Space} {B : Cid → Nat} {s : State} (h : InvB sp B s) {a : Aid} {c : Cid} (hm : a ∈ s.occ c) :
     c ∈ sp.cells := h.occ_cells a c hm
 
-theorem step_inv {sp : Space} (hsp : ConnClosed sp) {s : State} (h : Inv sp s) (op : Op) :
-    Inv sp (step sp s op).1 := by
+theorem step_invB {sp : Space} {B : Cid → Nat} (hsp : ConnClosed sp) {s : State} (h : InvB sp B s) (op : Op) :
+    InvB sp B (step sp s op).1 := by
   cases op with
   | new k =>
     have hst : (step sp s (.new k)).1 =
@@ -556,7 +567,7 @@ theorem step_inv {sp : Space} (hsp : ConnClosed sp) {s : State} (h : Inv sp s) (
     | none => exact h
     | some k =>
       have key : ∀ k', k' ≠ AKind.fixed → s.kinds[a]? = some k' →
-          Inv sp (match s.cellOf a with
+          InvB sp B (match s.cellOf a with
             | none => (s, Res.err Err.attr)
             | some c => match connGet sp c d with
               | none => (s, Res.err Err.noCell)
@@ -609,7 +620,7 @@ theorem step_inv {sp : Space} (hsp : ConnClosed sp) {s : State} (h : Inv sp s) (
     | some k =>
       have hd := inv_deregister h a
       have mobile : ∀ k', k' ≠ AKind.fixed → s.kinds[a]? = some k' →
-          Inv sp (setCellMobile sp { s with registry := s.registry.erase a } a none).1 := by
+          InvB sp B (setCellMobile sp { s with registry := s.registry.erase a } a none).1 := by
         intro k' hk' hkk
         have := setCell_inv (s := { s with registry := s.registry.erase a }) hd (k := k') hkk none (by simp)
         cases k' <;> simp_all [setCell]
@@ -637,16 +648,32 @@ theorem step_inv {sp : Space} (hsp : ConnClosed sp) {s : State} (h : Inv sp s) (
     split <;> exact h
   | randCell draws => exact h
 
+theorem run_invB {sp : Space} {B : Cid → Nat} (hsp : ConnClosed sp) {s : State} (h : InvB sp B s) (ops : List Op) :
+    InvB sp B (run sp s ops) := by
+  induction ops generalizing s with
+  | nil => exact h
+  | cons op ops ih => exact ih (step_invB hsp h op)
+
+theorem step_inv {sp : Space} (hsp : ConnClosed sp) {s : State} (h : Inv sp s) (op : Op) :
+    Inv sp (step sp s op).1 := (step_invB hsp h op).toInv
+
 theorem run_inv {sp : Space} (hsp : ConnClosed sp) {s : State} (h : Inv sp s) (ops : List Op) :
     Inv sp (run sp s ops) := by
   induction ops generalizing s with
   | nil => exact h
   | cons op ops ih => exact ih (step_inv hsp h op)
 
+/-- no growth beyond the capacity: after one operation a cell with capacity `k` holds at most `k` agents or at most what
+    it held before — a cell holding capacity-many or more never gains an agent -/
+theorem step_no_growth {sp : Space} (hsp : ConnClosed sp) {s : State} (h : Inv sp s) (op : Op) (c : Cid) (k : Nat)
+    (hk : sp.cap c = some k) :
+    ((step sp s op).1.occ c).length ≤ k ∨ ((step sp s op).1.occ c).length ≤ (s.occ c).length :=
+  (step_invB hsp h op).cap c k hk
+
 /-! ### rejected calls (C18) -/
 
 /-- if `a.cell = …` raises, the state is what it was -/
-theorem setCell_reject {sp : Space} {s : State} (h : Inv sp s) {a : Aid} {k : AKind}
+theorem setCell_reject {sp : Space} {B : Cid → Nat} {s : State} (h : InvB sp B s) {a : Aid} {k : AKind}
     (hk : s.kinds[a]? = some k) (tgt : Option Cid) {e : Err}
     (he : (setCell sp s k a tgt).2 = .err e) : (setCell sp s k a tgt).1 = s := by
   by_cases hfix : k = .fixed
@@ -703,7 +730,7 @@ def Op.placing : Op → Bool
   | _ => false
 
 /-- a placing call that raises leaves the whole state as it was -/
-theorem step_reject_unchanged {sp : Space} {s : State} (h : Inv sp s) (op : Op) (hp : op.placing = true)
+theorem step_reject_unchanged {sp : Space} {B : Cid → Nat} {s : State} (h : InvB sp B s) (op : Op) (hp : op.placing = true)
     {e : Err} (he : (step sp s op).2 = .err e) : (step sp s op).1 = s := by
   cases op with
   | new k => simp [Op.placing] at hp
